@@ -58,6 +58,8 @@ def build_ete(t, same_names=False):
             nodes[v] = Tree(name="" if same_names else f"n{v}")
         else:
             nodes[v] = nodes[t.parent[v]].add_child(name="" if same_names else f"n{v}")
+        if same_names:
+            nodes[v].dist = 0.25 + (v % 3)     # branch lengths other than 1: levels and distances count edges, not lengths
     return nodes
 
 
